@@ -178,9 +178,16 @@ fn worker(c: &Case, prog: &std::sync::Arc<std::sync::Mutex<Progress>>, mut hooks
     let mut seen_frame = false;
     let mut known: BTreeSet<u32> = BTreeSet::new();
     (hooks.seed)(&sut.app, u32::MAX);
+    crate::tuikit::WALL_CLOCK_OFFSET_S.store(0, std::sync::atomic::Ordering::SeqCst);
     for (i, op) in c.ops.iter().enumerate() {
         if trace {
             eprintln!("op {i} {}", op.fmt());
+        }
+        if let Op::Clock(d) = op {
+            // the wall clock steps (NTP, a resumed laptop): recorded in the line, no operation of the application
+            crate::tuikit::WALL_CLOCK_OFFSET_S.fetch_add(*d, std::sync::atomic::Ordering::SeqCst);
+            prog.lock().unwrap().op_txt.push(op.fmt());
+            continue;
         }
         {
             let mut g = prog.lock().unwrap();
@@ -224,6 +231,7 @@ fn worker(c: &Case, prog: &std::sync::Arc<std::sync::Mutex<Progress>>, mut hooks
                 None
             }
             Op::Frame { w, h } => Some(frame(&mut sut.app, *w, *h)),
+            Op::Clock(_) => None,
         }));
         let mut g = prog.lock().unwrap();
         if g.done {
@@ -562,6 +570,10 @@ pub fn random_case(seed_rng: &mut Rng, long: bool) -> Case {
             let (w, h) = rand_size(&mut g.r);
             ops.push(Op::Frame { w, h });
         }
+        // the wall clock is not monotonic
+        if g.r.chance(1, 40) {
+            ops.push(Op::Clock(*g.r.pick(&[-7200i64, -1, 3600, -86400])));
+        }
     }
     ops.push(Op::Frame { w: 120, h: 40 });
     Case { max_flows, cols, privacy, max_addrs, ops }
@@ -612,6 +624,11 @@ pub fn structured_cases() -> Vec<Case> {
     v.push(base(4, vec![
         f(120, 40), round_of_path(0, 1, 1, &path(&[1, 2, 3]), 0), Op::Clear { t: 0 }, outage(2, 3), outage(3, 3), f(120, 40),
         k("next_hop"), k("toggle_hop_details"), k("expand_hosts_max"), f(120, 40), round_of_path(0, 4, 1, &path(&[1, 5, 3]), 0), f(120, 40), f(80, 24),
+    ]));
+    // the display is frozen, then the wall clock is set back by an hour (and later forward again): frames keep being drawn
+    v.push(base(1, vec![
+        f(120, 40), round_of_path(0, 1, 1, &path(&[1, 2, 3]), 0), f(120, 40), k("toggle_freeze"), f(120, 40), Op::Clock(-3600), f(120, 40), f(80, 24),
+        round_of_path(0, 2, 1, &path(&[1, 2, 3]), 0), f(120, 40), Op::Clock(7200), f(120, 40), k("toggle_freeze"), f(120, 40), Op::Clock(-7200), k("toggle_freeze"), f(120, 40),
     ]));
     // selection kept while the trace loses all hops (Tracer::clear without TuiApp::clear)
     v.push(base(1, vec![
